@@ -268,6 +268,28 @@ fn show_glyph_read(bytes: &[u8]) -> String {
     }
 }
 
+/// write-fonts `SimpleGlyph::from_table_ref` (FromObjRef) on arbitrary simple-glyph bytes
+fn show_owned(bytes: &[u8]) -> String {
+    match catch(|| match rglyf::Glyph::read(FontData::new(bytes)) {
+        Err(_) => "err".to_string(),
+        Ok(rglyf::Glyph::Composite(_)) => "n/a".to_string(),
+        Ok(rglyf::Glyph::Simple(g)) => {
+            let o = SimpleGlyph::from_table_ref(&g);
+            let lens: Vec<usize> = o.contours.iter().map(|c| c.len()).collect();
+            let pts: Vec<i32> = o
+                .contours
+                .iter()
+                .flat_map(|c| c.iter())
+                .flat_map(|p| [p.x as i32, p.y as i32, p.on_curve as i32])
+                .collect();
+            format!("{} | {}", join_i(&lens), join_i(&pts))
+        }
+    }) {
+        Ok(s) => s,
+        Err(_) => "trap".into(),
+    }
+}
+
 // ---------------------------------------------------------------- canonical shortest length
 
 fn min_coord_bytes(d: i32) -> usize {
@@ -328,6 +350,7 @@ fn simple_case(s: &mut Session, g: &SG, group: &'static str) -> Option<Vec<u8>> 
     }
     // read back: correspondence of the reader on the writer's bytes
     s.case("g.read", format!("g.read {}", hex(&bytes)), show_glyph_read(&bytes));
+    s.case("g.owned", format!("g.owned {}", hex(&bytes)), show_owned(&bytes));
     // oracle: round trip on the real code
     let pts: Vec<(i16, i16, bool)> = g.contours.iter().flatten().copied().collect();
     // a glyph with more than 65535 points cannot be represented (u16 end points, maxp.maxPoints):
@@ -1160,6 +1183,40 @@ fn run(cfg: &Config, s: &mut Session) {
         let src = if rng.chance(3, 4) { rng.pick(&corpus) } else { rng.pick(&ccorpus) };
         let m = mutate(&mut rng, src);
         s.case("g.read.fuzz", format!("g.read {}", hex(&m)), show_glyph_read(&m));
+        let o = show_owned(&m);
+        s.count(&format!("owned.fuzz:{}", if o.contains('|') { "ok" } else { o.as_str() }));
+        s.case("g.owned.fuzz", format!("g.owned {}", hex(&m)), o);
+    }
+    // the OVERLAP_SIMPLE bit (0x40) and the reserved bit (0x80) on the first flag byte: the writer
+    // never sets them; every decoder must ignore them
+    for src in corpus.iter().take(if t { 2000 } else { 300 }) {
+        let Ok(g) = rglyf::SimpleGlyph::read(FontData::new(src)) else { continue };
+        if g.number_of_contours() <= 0 || g.num_points() == 0 {
+            continue;
+        }
+        let fpos = 10 + 2 * g.number_of_contours() as usize + 2 + g.instructions().len();
+        let want: Vec<(i16, i16, bool)> = g.points().map(|p| (p.x, p.y, p.on_curve)).collect();
+        for bit in [0x40u8, 0x80, 0xc0] {
+            let mut m = src.clone();
+            m[fpos] |= bit;
+            s.case("g.read.overlap", format!("g.read {}", hex(&m)), show_glyph_read(&m));
+            let r = catch(|| {
+                let g2 = rglyf::SimpleGlyph::read(FontData::new(&m)).unwrap();
+                let got: Vec<(i16, i16, bool)> = g2.points().map(|p| (p.x, p.y, p.on_curve)).collect();
+                let n = g2.num_points();
+                let mut fp = vec![read_fonts::types::Point::<i32>::default(); n];
+                let mut ff = vec![rglyf::PointFlags::default(); n];
+                let fast_ok = g2.read_points_fast(&mut fp, &mut ff).is_ok();
+                let fast: Vec<(i16, i16, bool)> =
+                    fp.iter().zip(ff.iter()).map(|(p, f)| (p.x as i16, p.y as i16, f.is_on_curve())).collect();
+                (got, fast_ok, fast, g2.has_overlapping_contours())
+            });
+            let ok = match &r {
+                Ok((got, fast_ok, fast, ov)) => *got == want && *fast_ok && *fast == want && *ov == (bit & 0x40 != 0),
+                Err(_) => false,
+            };
+            s.oracle("overlap/reserved-flag-bits-ignored", ok, || hex(&m), || format!("{:?}", r.as_ref().map(|x| (x.1, x.3))));
+        }
     }
     // hand-made flag streams: repeat counts 254/255 with too few / too many points
     for rep in [0u8, 1, 254, 255] {
